@@ -11,6 +11,7 @@ import Dcg.Proofs.Loops
 import Dcg.Proofs.TemplateInv
 import Dcg.Proofs.Placeholder
 import Dcg.Proofs.ImportsDump
+import Dcg.Proofs.PatternLit
 /-
 C01 — generation terminates and every emitted module is valid Python.
 
@@ -427,6 +428,66 @@ theorem empty_group_dangles (s : State) (f : Dcg.Model.Types.Str) (hf : f ≠ []
   simp [createLine, hf, withAlias, sortStrs, Dcg.Model.Types.joinSep]
 
 end ImportLines
+
+/-! ### Regex patterns: the text `pattern_literal` writes into `constr(regex=…)` / `constr(pattern=…)` -/
+
+section PatternLiteral
+open Dcg.Proofs.PatternLit Dcg.Proofs.Escape
+
+/-- **The pattern literal is ONE token, for every pattern.** The text that
+`model/pydantic/types.py pattern_literal` writes (`Proofs/PatternLit.patternLiteral`: `r'…'` when the
+pattern has no single quote, no control character and no dangling backslash, else `repr()`;
+compared character by character with the real function on every run, campaign `patlit.text`),
+followed by anything that does not start with a quote (the generator writes `)` or `,`), is read by
+the lexer as one complete string literal — raw or cooked — whose value is the pattern, and the
+lexer resumes exactly behind it: no pattern can end the literal early, leave it open or run into the
+rest of the line. -/
+theorem pattern_literal_one_token (pr : Char → Bool) (p rest : List Char)
+    (h1 : rest.head? ≠ some '\'') (h2 : rest.head? ≠ some '"') :
+    strToken (patternLiteral pr p ++ rest) = some (p, rest) :=
+  strToken_patternLiteral pr p rest h1 h2
+
+/-- non-vacuity: both quote kinds in one pattern (the shape `^['"].*['"]$`), followed by `)` -/
+example : strToken (patternLiteral (fun _ => true) "^['\"].*['\"]$".toList ++ [')']) =
+    some ("^['\"].*['\"]$".toList, [')']) :=
+  pattern_literal_one_token _ _ _ (by decide) (by decide)
+
+/-- non-vacuity, raw branch: backslashes stay single -/
+example : patternLiteral (fun _ => true) "^\\d+\"$".toList = "r'^\\d+\"$'".toList := by decide
+
+/-- **A raw literal cannot hold its own delimiter** — for EITHER quote `q`, every pattern without a
+backslash that contains `q`, every continuation: `r q p q` is not read back as `p`. Whatever
+delimiter a rendering of patterns writes, the raw form is only available when that delimiter does
+not occur in the pattern. -/
+theorem raw_literal_cannot_hold_its_delimiter (q : Char) (p rest : List Char)
+    (hq : q ∈ p) (hb : '\\' ∉ p) :
+    litRaw q (q :: p ++ [q] ++ rest) ≠ some (p, rest) :=
+  raw_literal_with_own_delimiter_inexact q p rest hq hb
+
+/-- non-vacuity: `r"a"b"` -/
+example : litRaw '"' ('"' :: "a\"b".toList ++ ['"'] ++ [')']) ≠ some ("a\"b".toList, [')']) :=
+  raw_literal_cannot_hold_its_delimiter _ _ _ (by decide) (by decide)
+
+/-- **The delimiter `repr()` would pick does not make a raw literal safe** (the refuted variant
+"write the raw literal with `repr(pattern)[0]` as its quote", kept visible): `repr` picks the
+single quote for every string that holds both quote kinds and relies on escaping it, which a raw
+literal cannot do — for every such pattern without a backslash the raw literal in repr's quote is
+NOT read back as the pattern, and no raw short literal in either quote is. -/
+theorem raw_in_repr_quote_refuted (p rest : List Char) (h1 : '\'' ∈ p) (h2 : '"' ∈ p)
+    (hb : '\\' ∉ p) :
+    litRaw (reprQuote p) (reprQuote p :: p ++ [reprQuote p] ++ rest) ≠ some (p, rest) ∧
+    ∀ q, q = '\'' ∨ q = '"' → litRaw q (q :: p ++ [q] ++ rest) ≠ some (p, rest) :=
+  ⟨both_quotes_no_raw_literal p rest h1 h2 hb _ (reprQuote_cases p),
+   both_quotes_no_raw_literal p rest h1 h2 hb⟩
+
+/-- the witness: `^['"].*['"]$` written as `r'^['"].*['"]$'` ends after `^[` -/
+example : strToken ("r'^['\"].*['\"]$')".toList) = some ("^[".toList, "\"].*['\"]$')".toList) := by
+  simp [strToken, litRaw, scanRaw, unitRaw]
+
+example : ('\'' ∈ "^['\"].*['\"]$".toList) ∧ ('"' ∈ "^['\"].*['\"]$".toList) ∧
+    ('\\' ∉ "^['\"].*['\"]$".toList) := by decide
+
+end PatternLiteral
 
 /-! ### Keyword names of `Field(...)` written by Python code -/
 
